@@ -303,6 +303,40 @@ func runCase(t *rapid.T, c *ev.Case) {
 		x.exec(Op{Kind: "write", Points: g.batch(t)})
 	}
 	x.exec(Op{Kind: "read"})
+	if rapid.Bool().Draw(t, "rolling") {
+		// rolling restart: every store is taken down and brought back once, in a generated order (each time only a minority is
+		// down); afterwards one more single failure must still leave everything readable and writable - a store that was silently
+		// dropped from its replica group, or never caught up, shows up here
+		c.Class("rolling-restart-of-all-stores")
+		order := rapid.Permutation([]int{0, 1, 2}).Draw(t, "rollingOrder")
+		if rapid.Bool().Draw(t, "secondPass") {
+			// twice: what a fail-over in the first pass did to the replica groups meets the restarts of the second pass
+			order = append(order, rapid.Permutation([]int{0, 1, 2}).Draw(t, "rollingOrder2")...)
+			c.Class("rolling-restart-two-passes")
+		}
+		for _, v := range order {
+			x.exec(Op{Kind: "kill", Store: v})
+			x.exec(Op{Kind: "write", Points: g.batch(t)})
+			x.exec(Op{Kind: "read", Ms: 3000})
+			x.exec(Op{Kind: "restart", Store: v})
+			x.exec(Op{Kind: "wait", Ms: 4000})
+			x.exec(Op{Kind: "write", Points: g.batch(t)})
+			x.exec(Op{Kind: "read"})
+		}
+		last := rapid.IntRange(0, 2).Draw(t, "lastVictim")
+		x.exec(Op{Kind: "kill", Store: last})
+		for i := 0; i < 2; i++ {
+			x.exec(Op{Kind: "write", Points: g.batch(t)})
+		}
+		x.exec(Op{Kind: "read", Ms: 12000})
+		if p := x.c.UnrecoveredPanic(); p != "" {
+			x.fail("process panicked: %s", p)
+		}
+		sort.Strings(x.nt)
+		c.Nontrivial(map[string]any{"faults": x.nt, "ops": c.Ops()})
+		c.Sample(map[string]any{"ptnum": pt, "faults": x.nt, "rolling": order})
+		return
+	}
 	rounds := rapid.IntRange(1, 2).Draw(t, "rounds")
 	prevVictim := -1
 	for r := 0; r < rounds; r++ {
